@@ -594,7 +594,13 @@ def G12_set_order(repo, clause, scope=ALL_LIB):
             else:
                 uses = [c]
             ordered_use = None
+            sorts = []
+            if uses and uses[0] is not c:
+                sorts = [fn.stmt_of(y) for y in fn.own_nodes() if isinstance(y, ast.Call) and isinstance(y.func, ast.Attribute) and y.func.attr == "sort"
+                         and isinstance(y.func.value, ast.Name) and y.func.value.id == uses[0].id]
             for u in uses:
+                if sorts and any(fn.cfg.dominates(s_, fn.stmt_of(u)) for s_ in sorts if s_ is not None and fn.stmt_of(u) is not None):
+                    continue     # sorted in place before this use
                 p1 = fn.parents.get(u)
                 # row selector: X[u], X[u, :], np.take(X, u), X.take(u)
                 if isinstance(p1, ast.Subscript) and p1.slice is u:
